@@ -421,6 +421,11 @@ impl ClockCache {
         self.insert_for_record(key, value, record)
     }
 
+    /// The lookup `update_ttl` / `persist` take the bytes of the new generation from.
+    pub fn verif_record_entry_value(&self, key: &[u8], record: &Arc<Record>) -> Option<Bytes> {
+        self.record_entry(key, record).value()
+    }
+
     pub fn verif_remove_for_record(&self, key: &[u8], record: &Arc<Record>) {
         self.remove_for_record(key, record)
     }
